@@ -1,5 +1,6 @@
 // prelude/verifreg_hook_miner_assumed.rs — TRUSTED/ASSUMED stubs of the miner unit `miner_extend_decl` (validate_extension_declarations,
-// get_claims). Included INSIDE the unit's `verus!{}` block after prelude/btreemap.rs and prelude/batch.rs.
+// get_claims). Included INSIDE the unit's `verus!{}` block after prelude/btreemap.rs, prelude/batch.rs and the items ExpirationExtension2 /
+// ValidatedExpirationExtension.
 // Every item stands for std / runtime code outside actors/miner/src; the comment says which and why the contract is true of it.
 
 // ---- std::collections::BTreeMap (beyond the lookup of prelude/btreemap.rs), over its finite-map view ---------------------------------
@@ -46,3 +47,13 @@ impl BatchReturn {
 /// `<[u64]>::to_owned()`: a vector with the same elements
 #[verifier::external_body]
 pub fn vx_slice_to_vec(s: &[u64]) -> (r: Vec<u64>) ensures r@ == s@ { unimplemented!() }
+
+// ---- actors/miner/src/lib.rs: the last expression of validate_extension_declarations ------------------------------------------------
+/// `extensions.into_iter().map(|e2| e2.into()).collect()` with `impl From<ExpirationExtension2> for ValidatedExpirationExtension` (lib.rs): one
+/// validated declaration per declaration, in order, with the same deadline / partition / new expiration and sectors = plain sectors ∪ sectors with claims
+#[verifier::external_body]
+pub fn vx_into_validated(extensions: Vec<ExpirationExtension2>) -> (r: Vec<ValidatedExpirationExtension>)
+    ensures r@.len() == extensions@.len(),
+        forall|d: int| 0 <= d < r@.len() ==> (#[trigger] r@[d]).deadline == extensions@[d].deadline && r@[d].partition == extensions@[d].partition
+            && r@[d].new_expiration == extensions@[d].new_expiration,
+{ unimplemented!() }
